@@ -182,8 +182,10 @@ void Exec::do_twin(const Step& st, const Client& cl) {
     es.k = rc.k;
     es.c = rc.cbkind;
     eval_abs = rc.x;  // exactly the point the source instance was evaluated at
+    eval_abs_k = true;
     do_eval<S>(es, ccl, rc.ev, 1);
     eval_abs = nullptr;
+    eval_abs_k = false;
     if (stop) return;
   }
 }
@@ -399,7 +401,8 @@ void Exec::do_step(const Step& st, const Client& cl, int depth) {
   // nested steps never touch the instance under evaluation
   if (depth > 0 && g_guard_prec == prec) {
     const bool nested_eval = st.op == OP_EVAL_SUP || st.op == OP_EVAL_UNSUP;
-    if ((st.op == OP_INIT && handle == g_guard_handle) || ((is_mutator(st.op) || nested_eval) && R.has_cur && R.cur == g_guard_handle)) {
+    (void)nested_eval;  // evaluating is read-only by C10, so a callback may evaluate any handle, also the one being evaluated
+    if ((st.op == OP_INIT && handle == g_guard_handle) || (is_mutator(st.op) && R.has_cur && R.cur == g_guard_handle)) {
       ++skipped;
       return;
     }
@@ -411,6 +414,15 @@ void Exec::do_step(const Step& st, const Client& cl, int depth) {
     for (auto& kv : cur->v) vn.push_back(kv.first);
   }
   auto unknown_name = [&](int a, bool vec) -> std::string {
+    if (!C && cur && a % 7 == 3) {  // a registered name, a NUL byte, more characters: not that name
+      const std::vector<std::string>& names = vec ? vn : pn;
+      if (!names.empty()) {
+        std::string n = names[(size_t)a % names.size()];
+        n.push_back('\0');
+        n += "x";
+        return n;
+      }
+    }
     for (int t = 0; t < g_num_unknown; ++t) {
       std::string n = g_unknown_names[(size_t)(a + t) % (size_t)g_num_unknown];
       if (cur && !vec && cur->p.count(n)) continue;
@@ -427,7 +439,7 @@ void Exec::do_step(const Step& st, const Client& cl, int depth) {
     }
     case OP_SELECT:
     case OP_SELECT_UNKNOWN: {
-      const std::string h = st.op == OP_SELECT ? handle : st.s;
+      const std::string h = st.op == OP_SELECT ? (C ? std::string(handle.c_str()) : handle) : (C ? std::string(st.s.c_str()) : st.s);
       auto prim = [&] {
         if (C)
           ::masa_select_mms(h.c_str());
@@ -435,7 +447,9 @@ void Exec::do_step(const Step& st, const Client& cl, int depth) {
           MASA::masa_select_mms<S>(h);
       };
       if (!R.m.count(h)) {
+        size_t nv0 = viols.size();
         fatal_protocol("F2a_select_unknown_handle", "masa_select_mms", prim);
+        if (C && !stop) c_abort_mismatch(nv0, "masa_select_mms", [&] { MASA::masa_select_mms<double>(h); });
         return;
       }
       CallOut co = call(false, prim);
@@ -555,12 +569,16 @@ void Exec::do_step(const Step& st, const Client& cl, int depth) {
       const Sol& sol = g_sols[cur->sol];
       std::vector<std::pair<std::string, S>> writes;
       bool admissible = st.b == 0;
+      if (st.b == 2 && !sol.fixture) {
+        for (const std::string& n : pn) writes.push_back(std::make_pair(n, S(st.val)));
+        admissible = false;
+      } else
       if (sol.name == "sod_1d" && admissible) {
         // any Gamma > 1 with 0 < mu < 1 keeps the root of sod_1d's pressure function bracketed, so mu need not be
         // the value derived from Gamma (an evaluator that re-derives it is then visible)
         static const double mufac[4] = {1.0, 1.0, 0.9, 1.1};
         S g = S(g_sod_gamma[(size_t)st.c % 6]);
-        if (prec == 1) g += g * S((st.a / 4) % 3) * S(1.0842021724855044e-19) * S(8);  // long double: steps of a few ulps, invisible to a double
+        g += g * S((st.a / 4) % 3) * std::numeric_limits<S>::epsilon();  // 0, 1 or 2 ulps away: "changed, but only in the last bits"
         S mu = ((g - S(1.e0)) / (g + S(1.e0))) * S(mufac[(size_t)st.a % 4]);
         writes.push_back(std::make_pair(std::string("Gamma"), g));
         writes.push_back(std::make_pair(std::string("mu"), mu));
@@ -574,8 +592,7 @@ void Exec::do_step(const Step& st, const Client& cl, int depth) {
         S v;
         if (admissible) {
           long double d = cur->p0.count(n) ? cur->p0[n] : 1.0L;
-          v = (S)d * (S)factors[(size_t)st.c % 6];
-          if (d == 0 && (st.c % 6) != 0) v = (S)(factors[(size_t)st.c % 6] - 1.0L);
+          v = this->template admissible<S>(d, st.c);
           if (bits_of(ms<S>(d)) == bits_of(marker<S>())) admissible = false;
         } else
           v = S(st.val);
@@ -831,7 +848,22 @@ void Exec::do_step(const Step& st, const Client& cl, int depth) {
       if (cur && !vn.empty() && st.len == -2) len = (int)cur->v[vn[((size_t)st.a + vn.size() - 1) % vn.size()]].size() % 41;  // length of the neighbouring vector
       std::vector<S> vals((size_t)len);
       Rng r(st.u);
-      for (int i = 0; i < len; ++i) vals[(size_t)i] = S(0.05 + r.u01() * 9.0) + (prec == 1 ? S(1) / S(3) * S(1e-3) : S(0));
+      for (int i = 0; i < len; ++i) {
+        vals[(size_t)i] = S(0.05 + r.u01() * 9.0) + (prec == 1 ? S(1) / S(3) * S(1e-3) : S(0));
+        if (r.uni(12) == 0) vals[(size_t)i] = r.bern(0.5) ? S(0.0) : S(-0.0);
+      }
+      if (cur && !vn.empty() && st.len == -3 && !unk) {  // what is stored now, with every zero's sign flipped (== but other bits)
+        const std::vector<long double>& now = cur->v[vn[(size_t)st.a % vn.size()]];
+        vals.assign(now.begin(), now.end());
+        bool any = false;
+        for (S& x : vals)
+          if (x == S(0)) {
+            x = -x;
+            any = true;
+          }
+        if (!any && !vals.empty()) vals[0] = S(0.0);
+        len = (int)vals.size();
+      }
       std::string n = unk ? unknown_name(st.a, true) : (vn.empty() ? std::string("vec_data") : vn[(size_t)st.a % vn.size()]);
       auto prim = [&] {
         if (C) {
@@ -1016,6 +1048,18 @@ void Exec::do_step(const Step& st, const Client& cl, int depth) {
         a.k = es.k;
         do_eval<S>(es, cl, ev, 1);
         if (stop) return;
+        if (!strcmp(g_evals[ev].sig, "i")) {  // enumeration: every moment order 0..400 once
+          eval_abs_k = true;
+          for (int k = 0; k <= 400 && !stop; ++k) {
+            es.k = k;
+            skip_frame = k != 400;
+            do_eval<S>(es, cl, ev, 1);
+          }
+          skip_frame = false;
+          eval_abs_k = false;
+          es.k = 2;
+          if (stop) return;
+        }
         auto key = purity_key<S>(prec, R.m[h], ev, a, 0);
         auto it = purity.find(key);
         orc_eval("C14");
@@ -1073,8 +1117,10 @@ void Exec::do_step(const Step& st, const Client& cl, int depth) {
         es.k = rc.k;
         es.c = rc.cbkind;
         eval_abs = rc.x;
+        eval_abs_k = true;
         do_eval<S>(es, ccl, rc.ev, 1);  // the value this session gives NOW for these parameters
         eval_abs = nullptr;
+        eval_abs_k = false;
         if (stop) return;
         Inst& inst = R.m[h];
         EvalArgs<S> a;
